@@ -12,7 +12,7 @@ BOUNDED = H(name="C13.alloc_collect.le4", file="harness/c13_fossil.c", entry="h_
       unwindset=("h_fossil_collect.0:10", "model_allocator_fossil_lp_collect.0:6", "model_allocator_fossil_lp_collect.1:6", "model_allocator_fossil_lp_collect.2:6", "model_allocator_fossil_lp_collect.3:6", "memmove.0:66", "free.0:17", "was_released.0:17"),
       timeout=900, mem_gb=16, objbits=8,
       desc="same contract on every table of <= 4 slots with distinct live checkpoints: additionally every dropped checkpoint is released exactly once (double free = CBMC error) and no kept one is")
-HARNESSES = [BOUNDED, collect(1024, ("thorough",), 3600)]
+HARNESSES = [BOUNDED, collect(1024, ("quick", "thorough"), 3600)]
 EXPLANATION = "Allocator side: model_allocator_fossil_lp_collect of the real multi.c is checked against its contract: at least one checkpoint is kept, the returned cut is the reference of the first kept checkpoint and is not after the committed frontier, every later checkpoint is after it (so the kept one is the newest usable one), kept slots are shifted and rebased by the cut (slot 0 gets reference 0), exactly the dropped checkpoints are released. Quick: every table of <= 4 slots (loops unwound, exact memmove, ghost free table: no double/missing release). Thorough: table of symbolic length <= 1024 with the loops closed by ghost-index loop invariants and decreases clauses (no unwinding over the table; proof). History side (fossil_lp_collect of fossil.c, bounded histories): the frontier handed to the allocator is just after the last processed event below the GVT, events at/above GVT are kept, the released prefix has exactly the returned length, the kept history starts at the kept checkpoint, released buffers are the non-locally-sent ones. Together with C05's restore precondition (a checkpoint not after the target exists) every rollback to a point at/above GVT still finds its checkpoint."
 ASSUMPTIONS = ['memmove/free as stubs in the invariant-based harness (ghost slot copied exactly, releases counted); exact byte loop + ghost free table in the bounded one', 'history length bounded on the fossil.c side']
 LEVEL_TEXT = 'Deductive proof of the allocator-side collection for log tables of symbolic length (ghost-index loop invariants, thorough tier) plus bounded exact checks (quick tier) and bounded history-side contract checks.'
